@@ -16,6 +16,147 @@ def slice_has(f, expr, pred):
     return any(pred(x) for x in recursion.slice_nodes(f, expr))
 
 
+def rule_library_key(F, rep):
+    """The statements at the head of ImporterImpl::fetchModel that choose the library key are executed for the four combinations of
+    (the URL as written is a key of the library, the resolved path is a key of the library); values are W (the import source's URL, possibly
+    normalised) and R (resolvePath(W, base))."""
+    rep.rule('C07.K2', 'the library key under which an import is looked up is the URL exactly as the import states it whenever the library has that key (the key under which Importer::addModel/replaceModel register a model "that will replace the URL in future imports"), '
+                       'and the path resolved against the importing file otherwise: decided by executing the key selection at the head of fetchModel for every combination of (URL as written is a key, resolved path is a key). '
+                       'With the other precedence a model loaded from disk earlier shadows the one the user supplied for the same import')
+    f = F.fn1('Importer::ImporterImpl::fetchModel')
+    body = f.body
+    if body is None or body.get('k') != 'Compound':
+        raise AnalysisBroken('fetchModel: body vanished')
+
+    def strip(e):
+        while e is not None and e.get('k') in ('Paren', 'Cast', 'Construct', 'Temp', 'Bind') and len(e.get('c', [])) == 1:
+            e = e['c'][0]
+        return e
+
+    class Stop(Exception):
+        pass
+
+    def val(e, env):
+        e = strip(e)
+        k = e.get('k')
+        if k == 'Ref' and e.get('dk') == 'local':
+            if e.get('d') in env:
+                return env[e['d']]
+            raise Stop()
+        if k == 'Call' and e.get('fn') == 'normaliseDirectorySeparator':
+            return val(e['c'][0], env)
+        if k == 'Cond' and len(e.get('c', [])) == 3:
+            return val(e['c'][1], env) if cond(e['c'][0], env, *env['__wr']) else val(e['c'][2], env)
+        if k == 'Call' and e.get('fn') == 'url' and (e.get('cls') or '').endswith('ImportSource'):
+            return 'W'
+        if k == 'Call' and e.get('fn') == 'resolvePath':
+            a = val(e['c'][0], env)
+            if a == 'W' and render(strip(e['c'][1])) == f.params[1]['n']:
+                return 'R'
+            raise AnalysisBroken('fetchModel: resolvePath(%s, %s) is not the resolution of the URL as written against the importing file' % (a, render(e['c'][1])[:30]))
+        raise Stop()
+
+    def present(e, env, w, r):
+        v = val(e, env)
+        if v == 'W':
+            return w
+        if v == 'R':
+            return r
+        raise Stop()
+
+    def cond(e, env, w, r):
+        e = strip(e)
+        k = e.get('k')
+        if k == 'Bin' and e.get('op') in ('&&', '||'):
+            a, b = cond(e['c'][0], env, w, r), cond(e['c'][1], env, w, r)
+            return (a and b) if e['op'] == '&&' else (a or b)
+        if k == 'Un' and e.get('op') == '!':
+            return not cond(e['c'][0], env, w, r)
+        if k == 'Ref' and e.get('dk') == 'local' and isinstance(env.get(e.get('d')), bool):
+            return env[e['d']]
+        if k == 'Call' and e.get('fn') == 'count' and 'mLibrary' in render(e['c'][0]):
+            return present(e['c'][1], env, w, r)
+        if (k == 'Bin' and e.get('op') in ('==', '!=', '>')) or (k == 'Call' and e.get('opc') in ('==', '!=')):
+            op = e.get('op') or e.get('opc')
+            l, r_ = strip(e['c'][0]), strip(e['c'][1])
+            for x, y in ((l, r_), (r_, l)):
+                if x.get('k') == 'Call' and x.get('fn') == 'count' and 'mLibrary' in render(x['c'][0]) and y.get('k') == 'Int' and y.get('v') == 0:
+                    p_ = present(x['c'][1], env, w, r)
+                    return (not p_) if op == '==' else p_
+                if x.get('k') == 'Call' and x.get('fn') == 'find' and 'mLibrary' in render(x['c'][0]) and y.get('k') == 'Call' and y.get('fn') == 'end':
+                    p_ = present(x['c'][1], env, w, r)
+                    return (not p_) if op == '==' else p_
+        raise Stop()
+
+    def assigns_only(st):
+        """a branch that only assigns string/bool locals"""
+        items = st.get('c', []) if st.get('k') == 'Compound' else [st]
+        return all((x.get('k') == 'Call' and x.get('opc') == '=' and x['c'][0].get('k') == 'Ref' and x['c'][0].get('dk') == 'local') or (x.get('k') == 'Bin' and x.get('op') == '=' and x['c'][0].get('k') == 'Ref') for x in items) and bool(items)
+
+    def exec_(st, env, w, r):
+        k = st.get('k')
+        if k == 'Compound':
+            for x in st.get('c', []):
+                exec_(x, env, w, r)
+        elif k == 'DeclStmt':
+            for v in st.get('c', []):
+                if v.get('k') == 'Var' and v.get('c'):
+                    t = (v.get('t') or '').replace('const ', '')
+                    if 'basic_string<char>' in t and 'map' not in t:
+                        env[v['d']] = val(v['c'][0], env)
+                    elif t == 'bool':
+                        env[v['d']] = cond(v['c'][0], env, w, r)
+                    elif any(x.get('k') == 'Ref' and x.get('dk') == 'local' and env.get(x.get('d')) in ('W', 'R') for x in walk(v['c'][0])):
+                        raise Stop()        # the chosen key is used (auto entry = mLibrary.find(url);): the selection is over
+        elif (k == 'Call' and st.get('opc') == '=') or (k == 'Bin' and st.get('op') == '='):
+            tgt = st['c'][0]
+            if isinstance(env.get(tgt.get('d')), bool) or tgt.get('t') == 'bool':
+                env[tgt['d']] = cond(st['c'][1], env, w, r)
+            else:
+                env[tgt['d']] = val(st['c'][1], env)
+        elif k == 'If':
+            th, el = role(st, 'then'), role(st, 'else')
+            if not assigns_only(th) or (el is not None and not assigns_only(el)):
+                raise Stop()
+            if cond(role(st, 'cond'), env, w, r):
+                exec_(th, env, w, r)
+            elif el is not None:
+                exec_(el, env, w, r)
+        else:
+            raise Stop()
+
+    results = {}
+    stop_at = None
+    for w in (False, True):
+        for r in (False, True):
+            env = {'__wr': (w, r)}
+            at = None
+            for st in body.get('c', []):
+                snap = dict(env)
+                try:
+                    exec_(st, env, w, r)
+                except Stop:
+                    env = snap
+                    at = st
+                    break
+            # a declaration the executor has no use for (ModelPtr model;) is stepped over: look at the first statement that USES a string value
+            if at is None:
+                raise AnalysisBroken('fetchModel: no statement uses the chosen key')
+            stop_at = at
+            keyv = next((x for x in walk(role(at, 'cond') if at.get('k') == 'If' else at) if x.get('k') == 'Ref' and x.get('dk') == 'local' and env.get(x.get('d')) in ('W', 'R')), None)
+            if keyv is None:
+                raise AnalysisBroken('fetchModel: the statement after the key selection (line %s) does not use a key that is the URL as written or its resolution' % at.get('l'))
+            results[(w, r)] = env[keyv['d']]
+    if not any(x.get('k') == 'Call' and x.get('fn') in ('count', 'find', 'at', 'operator[]') and 'mLibrary' in render(x['c'][0]) or x.get('k') == 'Construct' and 'ifstream' in (x.get('t') or '') for x in walk(stop_at)):
+        raise AnalysisBroken('fetchModel: the key selection does not end at the library lookup / file read (line %s)' % stop_at.get('l'))
+    for (w, r), got in sorted(results.items()):
+        want = 'W' if w else 'R'
+        names = {'W': 'the URL as written', 'R': 'the resolved path'}
+        rep.check(got == want, 'C07.K2', 'as-written-in-library=%s|resolved-in-library=%s' % (w, r), f.where(stop_at),
+                  'with the URL as written %s and the resolved path %s in the library, the import is looked up under %s; it must be %s' % ('present' if w else 'absent', 'present' if r else 'absent', names[got], names[want]),
+                  'looked up under ' + names[want])
+
+
 def run(F, rep):
     # ------------------------------------------------------------------ T
     rep.rule('C07.T1', 'every recursive call that takes an import step (importSource()->model()) is dominated by checkForImportCycles on the history that is handed on, or the import step is under isResolved()/isDefined()')
@@ -230,6 +371,9 @@ def run(F, rep):
     # ------------------------------------------------------------------ A: verdicts gathered over loops
     from engines import rule_accumulators
     rule_accumulators(F, rep, 'C07.A1', lambda g: g.file.endswith('/importer.cpp'), 3, 'importer.cpp', 'a failure of an earlier import (or the fact that an error is related to the requested item) is forgotten when a later one is fine')
+
+    # ------------------------------------------------------------------ K2: which library key an import is looked up under
+    rule_library_key(F, rep)
 
     # ------------------------------------------------------------------ W: walks over the component tree are complete
     import recursion as _recw
